@@ -52,6 +52,10 @@ CHECKS['C14'] = ('translation_validation', 'relational symbolic execution: two e
     'Bounded translation-validation of kernel/description pairs: cone(0)=cylinder, cylinder(1/r=0)=plate, w-only=w-block, numeric(c=0)=analytic (exact rational rule; also force_orthotropic_laminate), axis exchange, similarity scaling, for k0/kG0/kM (and kAx/kAy/cA where defined) over all real geometry, laminate, flags, loads.',
     'Series orders bounded; additivity/end-point lemmas of C10 assumed in (a); eigenvalue corollaries by congruence/scaling are an argument, not a query.',
     'DESIGN.md section 4 C14')
+CHECKS['C05'] = (OTHER, 'symbolic execution of the real analysis.lb / Panel.lb over symbolic matrices with ARPACK/LAPACK contract stubs, under a forking comparison policy (forksym); z3 proves residual, null-amplitude zeros and value/vector pairing per returned column and the ordering implications on every path; exceptions and ordering violations are replayed on the real function with scipy',
+    'Bounded symbolic verification of the wrapper code (what compmech itself contributes): for sizes 5..7, every null pattern class, num_eigvalues 1..25, sparse / null-column fallback / dense paths: (K+lambda KG)v=0 on the full size under the solver contract, zeros on null amplitudes, smallest positive multiplier first and ascending positives under the ascending-mu contract, no exception for admissible inputs.',
+    'ARPACK/LAPACK numerics are contract stubs (that ARPACK returns the multipliers nearest 1 first, convergence, agreement of the numerical paths are outside); ConeCyl.lb outside; sizes concrete.',
+    'DESIGN.md section 4 C05')
 NA = {
     'C15': 'eigenvalue monotonicity/convergence for pencils of size 48..768 is not a bounded first-order query any installed solver can decide; the algebraic ingredients (exact Hessians, exact tables, nestedness) are decided under C02-C04 and C10 (DESIGN.md section 5)',
 }
